@@ -84,6 +84,9 @@ class InOracle:
         n = len(self.inp)
         pos = self.dev_len
         count = 1 if self._zlp_owed_to_device() else 0
+        p = self.prev
+        if p is not None and not p["dev_acked"] and len(p["payload"]) == 0:
+            count += 1                      # a ZLP that was sent but not acknowledged still occupies the transmit slot
         li = 0
         ll = self.last_list
         while count <= 1:
